@@ -28,6 +28,13 @@ def case(vol, rep, freq, peak, sd, ws, windows, shift=0):
                                               aligned_start(rep, len(ws)) + shift, n)
 
 
+def scase(vol, rep, freq, peak, sd, wstr, nweights, windows):
+    """weights given as the string a user types; nweights = how many entries count"""
+    from ..core import hx
+    n = (rep // freq) * windows
+    return "gauss %s %d %d %d %d s:%s %d %d" % (fbits(vol), rep, freq, peak, sd, hx(wstr), aligned_start(rep, nweights), n)
+
+
 def corpus():
     return [
         case(100000.0, 86400 * S, 60 * S, 14 * 3600 * S, 3600 * S, [], 1),
@@ -39,6 +46,10 @@ def corpus():
         case(100000.0, 3600 * S, 60 * S, 1800 * S, 600 * S, [0.5], 1),
         case(100000.0, 168 * 3600 * S, 3600 * S, 84 * 3600 * S, 12 * 3600 * S, [], 2),   # weekly window (does not divide the zero-time/epoch distance)
         case(50000.0, 7 * 3600 * S, 600 * S, 3 * 3600 * S, 3600 * S, [1.0, 3.0], 2),
+        # the --weights string as typed: a zero is a weight like any other ("no load at weekends")
+        scase(1000.0, 3600 * S, 60 * S, 1800 * S, 600 * S, "2,0,1,1", 4, 4),
+        scase(1000.0, 3600 * S, 60 * S, 1800 * S, 600 * S, "1,0", 2, 4),
+        scase(1000.0, 3600 * S, 60 * S, 1800 * S, 600 * S, "0.5,,2", 2, 2),
     ]
 
 
@@ -56,7 +67,13 @@ def generate(rng, tier):
         windows = rng.choice([1, 2, 3]) if not ws else len(ws) + rng.choice([0, 1])
         if (rep // freq) * windows > 9000:
             windows = max(1, 9000 // (rep // freq))
-        out.append(case(rng.choice([100.0, 1e4, 23499.0, 1e6]), rep, freq, peak, sd, ws, windows))
+        if ws and rng.random() < 0.4:
+            strs = [rng.choice(["0", "1", "2", "0.5", "3", "1.5", "10"]) for _ in ws]
+            if all(x == "0" for x in strs):
+                strs[0] = "1"
+            out.append(scase(rng.choice([100.0, 1e4, 23499.0]), rep, freq, peak, sd, ",".join(strs), len(strs), windows))
+        else:
+            out.append(case(rng.choice([100.0, 1e4, 23499.0, 1e6]), rep, freq, peak, sd, ws, windows))
     return out
 
 
